@@ -370,6 +370,11 @@ func (c *cpuEvictor) calculateMilliReleaseByAllocatableThresholdPercent(threshol
 	prioritiesMp := make(map[apiext.PriorityClass]bool)
 	resourceOnNode := node.Status.Allocatable
 	for rt, rq := range requestedOnNode {
+		if _, supported := apiext.ReverseResourceNameMap[rt]; !supported {
+			// only koord-batch/koord-mid resources are supported: calculateFunc accounts no release for
+			// any other resource, so such a target could never be met
+			continue
+		}
 		nq, ok := resourceOnNode[rt]
 		if !ok || nq.IsZero() {
 			overall[rt] = rq
